@@ -46,6 +46,7 @@ class RunResult:
     n_events: int = 0
     states: set[str] = field(default_factory=set)
     sample: dict[str, Any] = field(default_factory=dict)
+    known_hits: Counter[str] = field(default_factory=Counter)
 
 
 WorldFn = Callable[[Ctx], None]
@@ -101,6 +102,7 @@ def execute(world: WorldFn, ch: Choices, lens: str, cfg: dict[str, Any], *, watc
     res.n_events = ctx.seq
     res.states = ctx.states
     res.sample = ctx.sample
+    res.known_hits = ctx.known_hits
     return res
 
 
@@ -135,6 +137,7 @@ class ChunkResult:
     samples: list[dict[str, Any]] = field(default_factory=list)
     digests: dict[int, str] = field(default_factory=dict)
     wall: float = 0.0
+    known_hits: Counter[str] = field(default_factory=Counter)
 
 
 def run_seed(world_name: str) -> WorldFn:
@@ -162,6 +165,7 @@ def run_chunk(
         out.faults.update(r.faults)
         out.probes.update(r.probes)
         out.checks.update(r.checks)
+        out.known_hits.update(r.known_hits)
         out.trace_hashes.add(r.trace_hash)
         if sum(r.faults.values()) >= 1 or r.switches >= 2:
             out.nontrivial_hashes.add(r.trace_hash)
@@ -432,6 +436,7 @@ def run_check(
                 a.faults.update(cr.faults)
                 a.probes.update(cr.probes)
                 a.checks.update(cr.checks)
+                a.known_hits.update(cr.known_hits)
                 a.trace_hashes |= cr.trace_hashes
                 a.nontrivial_hashes |= cr.nontrivial_hashes
                 a.states |= cr.states
@@ -500,6 +505,18 @@ def run_check(
         # seams (heap layout, ...). Not believed as a violation, not waved through either.
         print(f"HARNESS-ERROR property={prop} {unconfirmed} violation(s) seen in the batch did not replay", flush=True)
         exit_code = max(exit_code, 2)
+    # every listed known finding of this property is announced, with how often this batch met it
+    from btcsim.core.ctx import known_findings, known_id  # noqa: PLC0415
+
+    hits: Counter[str] = Counter()
+    for a in agg.values():
+        hits.update(a.known_hits)
+    for k in known_findings(prop):
+        n = hits.get(known_id(k), 0)
+        line = f"KNOWN-FINDING: property={prop} {k['what']}"
+        if line not in known_printed:
+            known_printed.add(line)
+            print(line + (f" [met {n} times in this batch]" if n else " [not reached in this batch]"), flush=True)
     # known findings are also announced when their probe ran (deterministic probes
     # placed by worlds print through ctx.probes 'known:<id>')
     total_runs = sum(a.runs for a in agg.values())
